@@ -14,6 +14,7 @@ func allChecks() []*Check {
 				{Pkg: "client", Func: "VerifSession", Sched: true, Quick: map[string]int{"N": 3, "SW": 1, "KINDS": 0, "TRACK": 0}, Thorough: map[string]int{"N": 4, "SW": 2, "KINDS": 0, "TRACK": 0}, Asserts: []string{"fg-handlers-of-different-lines-never-overlap", "fg-handlers-in-wire-order", "CONNECTED-after-welcome-applied", "CONNECTED-before-any-later-line", "later-line-only-after-CONNECTED-finished", "DISCONNECTED-only-after-fg-handlers-finished", "DISCONNECTED-exactly-once", "every-handler-of-every-line-exactly-once"}},
 				{Pkg: "client", Func: "VerifSession", Sched: true, Quick: map[string]int{"N": 3, "SW": 1, "KINDS": 0, "TRACK": 0, "EARLY": 1}, Thorough: map[string]int{"N": 4, "SW": 2, "KINDS": 1, "TRACK": 0, "EARLY": 1}, Asserts: []string{"DISCONNECTED-only-after-fg-handlers-finished", "DISCONNECTED-exactly-once", "fg-handlers-in-wire-order"}, Note: "disconnect while lines are being processed"},
 				{Pkg: "client", Func: "VerifC01Deliver", Quick: map[string]int{"LONG": 1, "VBL": 1, "TL": 1}, Thorough: map[string]int{"LONG": 1, "VBL": 2, "TL": 2}, Asserts: []string{"delivered-equal", "next-line-delivered"}, Note: "a line longer than the read buffer, followed by another"},
+				{Pkg: "client", Func: "VerifC03Burst", Sched: true, Quick: map[string]int{"LINES": 40, "SW": 1, "KINDS": 0}, Thorough: map[string]int{"LINES": 70, "SW": 1, "KINDS": 1}, Asserts: []string{"burst:every-line-delivered-once", "burst:delivered-in-wire-order"}, Note: "more lines in one read than the internal queue holds, behind a held handler"},
 			},
 			Bounds: map[string]string{"quick": "a scripted session of 3 lines (001 changing the nick, own JOIN, PING; thorough adds another user's JOIN and a PRIVMSG; names symbolic) over the real Connect/recv/runLoop/dispatch/Close with 2 foreground + 1 background handler per verb and CONNECTED/DISCONNECTED handlers; the byte stream cut into reads in 4 ways (whole, mid-line, between CR and LF, at a line boundary); one designated handler invocation returns / yields mid-way; ended by server EOF, one Close, or two Closes racing EOF, after delivery or while lines are in flight; goroutine schedules: the deterministic run-until-block schedule plus every schedule within 1 deviation (delay bound 1) at block points, select choices and explicit yields; a 4200-byte line through recv",
 				"thorough": "4 lines, delay bound 2, preemption also at mutex operations"},
@@ -40,6 +41,7 @@ func allChecks() []*Check {
 				{Pkg: "client", Func: "VerifC18Dial", Quick: map[string]int{"HL": 1}, Thorough: map[string]int{"HL": 2}, Asserts: []string{"failed-connect-fires-nothing", "failed-connect-not-connected", "register-once-before-connect-returns"}, Note: "dial error / TLS handshake failure"},
 				{Pkg: "client", Func: "VerifSession", Sched: true, Quick: map[string]int{"N": 2, "SW": 1, "KINDS": 1, "TRACK": 0}, Thorough: map[string]int{"N": 3, "SW": 2, "KINDS": 1, "TRACK": 1}, Asserts: []string{"DISCONNECTED-exactly-once", "REGISTER-exactly-once", "REGISTER-once-before-Connect-returns", "Connected-false-in-DISCONNECTED-handler", "Connected-true-in-REGISTER-handler"}},
 				{Pkg: "client", Func: "VerifSession", Sched: true, Quick: map[string]int{"N": 2, "SW": 1, "KINDS": 1, "TRACK": 0, "EARLY": 1}, Thorough: map[string]int{"N": 3, "SW": 2, "KINDS": 1, "TRACK": 0, "EARLY": 1}, Asserts: []string{"DISCONNECTED-exactly-once", "REGISTER-exactly-once"}, Note: "ends while lines are in flight"},
+				{Pkg: "client", Func: "VerifSession", Sched: true, Quick: map[string]int{"N": 2, "SW": 1, "KINDS": 0, "TRACK": 0, "EARLY": 1, "FLOODHOLD": 1, "SLIM": 1}, Thorough: map[string]int{"N": 3, "SW": 1, "KINDS": 1, "TRACK": 0, "EARLY": 1, "FLOODHOLD": 1, "SLIM": 1}, Asserts: []string{"DISCONNECTED-exactly-once", "REGISTER-exactly-once"}, Note: "flood control engaged: the connection ends while the sender is holding a line back"},
 				{Pkg: "client", Func: "VerifC06CancelDuringConnect", Sched: true, Quick: map[string]int{"SW": 1}, Thorough: map[string]int{"SW": 2}, Asserts: []string{"REGISTER-exactly-once", "DISCONNECTED-exactly-once"}},
 				{Pkg: "client", Func: "VerifC06WriteError", Sched: true, Quick: map[string]int{"SW": 1}, Thorough: map[string]int{"SW": 2}, Asserts: []string{"DISCONNECTED-exactly-once"}},
 			},
